@@ -67,6 +67,10 @@ CHECKS = {
             "Generated histories (preference changes over 22 preferences, other expressions, getters, navigation, cursor routing) followed by a target assignment of all those preferences in generated order, the probe expression, getters in generated order and multiplicity and away-and-back toggles; each output must be byte-identical (ids normalised) to a fresh session that establishes the same assignment, sets the expression and calls that getter once; a share of cases runs beside independent sessions in other threads.",
             "Thread interleavings are sampled, not explored (all state is thread-local). Outputs are only observed while the target assignment is in force (documented: an expression is canonicalised with the preferences current at set_mathml time).",
             "DESIGN.md 3/C10"),
+    "C20": ("property-based testing with per-expression exhaustive probing (every node id, every cell index) and a purity snapshot oracle",
+            "Generated textbook expressions x every braille code x highlight style, after random navigation moves; every node id (and a foreign id) is highlighted, the braille position is read and every cell index (plus huge positions) is routed; results must succeed for own ids / inside positions, stay within the braille, name ids of the expression, equal the plain braille when highlighting is off or the id is foreign, and leave the highlight preference, navigation position, speech and plain braille unchanged.",
+            "Clause 'highlighting only adds dots' is a known finding for all cell codes (clean-up passes do not recognise highlighted cells) and is keyed per code.",
+            "DESIGN.md 3/C20"),
 }
 
 NOT_YET = "check not built yet in this round (machinery in progress; see DESIGN.md section 7 build order)"
